@@ -181,6 +181,9 @@ row("generic_rank_scalar", {"decl": "void {n}(double factor, int *values, int nv
                                                 {"decl": "(float factor, int *values +rank(1))", "function_suffix": "_float_array"},
                                                 {"decl": "(double factor, int *values +rank(1))", "function_suffix": "_array"}]},
     wraps=CF, doc="generic.yaml AssignValues / SavePointer: entries that differ in rank (each scalar / array pattern gets its own bind(C) interface) and in the type of a by-value scalar")
+row("generic_attrs", {"decl": "void {n}(double *a +rank(1)+intent(inout), int n +implied(size(a)), double f)",
+                      "fortran_generic": [{"decl": "(float f)"}, {"decl": "(double f)"}]},
+    wraps=CF, doc="generic.yaml + docs/fortran.rst: fortran_generic variants of a function whose other arguments carry attributes")
 row("generic_nosfx", {"decl": "long {n}(long a, long b)",
                       "fortran_generic": [{"decl": "(int a, int b)"}, {"decl": "(long a, long b)"}]},
     wraps=CF, doc="generic.yaml GenericReal2")
@@ -249,6 +252,10 @@ row("namespace_scalar", {"decl": "namespace {n}_ns", "declarations": [
         {"decl": "int {n}nsin(int a)"},
         {"decl": "namespace {n}_deep", "declarations": [{"decl": "int {n}nsdeep(int a, int b)"}]},
     ]}, langs=CXX, wraps=ALLW, doc="docs/namespaces.rst; namespace.yaml (scalar functions: every wrapper language)")
+row("namespace_extern_c", {"decl": "namespace {n}_ns", "declarations": [
+        {"decl": "int {n}nsplain(int a)", "options": {"C_extern_C": True}},
+        {"decl": "double {n}nsplain2(double a, int b)", "options": {"C_extern_C": True}},
+    ]}, langs=CXX, wraps=CF, doc="docs/reference.rst C_extern_C + docs/namespaces.rst: a namespace whose functions all have C linkage and need no C wrapper")
 row("class_inherit", [{"decl": "class {n}_Shape", "declarations": [
         {"decl": "{n}_Shape()"}, {"decl": "int get_ivar() const"}]},
     {"decl": "class {n}_Circle : public {n}_Shape", "declarations": [{"decl": "{n}_Circle()"}]}],
